@@ -2,5 +2,8 @@ SPECIFICATION Spec
 CONSTANTS
   MaxDepth = 4
   Msgs = {"a", "b"}
-INVARIANTS NilStaysNil TextLen Emit
+  Reps = {1}
+  MaxTotal = 4
+  CauseLimit = 0
+INVARIANTS NilStaysNil CauseIsRoot TextLen Emit
 CHECK_DEADLOCK FALSE
